@@ -475,10 +475,8 @@ def classify_world(changes, sub, ctxname=None):
     """Clause names for a property failure that consists only of recorded defect classes."""
     clauses = set()
     for c in changes:
-        if c.startswith("the parent did not continue") and ctxname in ("stages", "pl") and \
-                any(t.startswith("cd:") or t.startswith("ro:") or t.startswith("un:") for t in sub):
-            clauses.add("stage_error_aborts_parent")
-            continue
+        # (an Err of a pipeline stage used to abandon the parent's line — clause stage_error_aborts_parent,
+        # repaired by a653878: "the parent did not continue" is now always a violation)
         if c.startswith("process umask") and any(t.startswith("um:") for t in sub):
             clauses.add("umask_process_wide")
         elif c.startswith("process RLIMIT_NOFILE") and any(t.startswith("ul:") for t in sub):
@@ -526,13 +524,8 @@ def gen_cases(ctx):
         pre = [t for t in pre if not t.startswith("xi:") and not t.startswith("ec:")]   # the parent neither leaves nor prints
         sub = [rng.choice(ALPHABET) for _ in range(rng.randint(1, 8))]
         cases.append(("rand", c, pre, sub))
-    # A pipeline whose stage ends in an Err is abandoned by the parent while later stage tasks may still be
-    # running: their process-wide effects would race with the snapshot (and with the next case).  Keep
-    # umask/ulimit out of such pipelines; everything else they do stays in their own clones.
     out = []
     for kind, c, par, sub in cases:
-        if c in ("stages", "pl") and any(t.startswith(("cd:", "ro:", "un:")) for t in sub) and any(is_world(t) for t in sub):
-            sub = [t for t in sub if not is_world(t)]
         if c == "pl" and sub and sub[-1].startswith("xi:") and (lastpipe_on(par) or len(sub) == 1):
             sub = sub[:-1] + ["fa"]          # `exit` as the parent's own last stage would end the parent: not a subshell
         if c == "pl" and len(sub) >= 2 and sub[-1].startswith("fd:") and lastpipe_on(par):
@@ -601,7 +594,7 @@ def run_inproc(ctx, root):
         same = all(bc[k] == mc[k] for k in ("st", "sub", "par", "cv", "w0", "w1", "diff"))
         changes, sub_in_subshells = own_filter(c, par, sub, changes, bc, mc)
         sub_all, sub = sub, sub_in_subshells      # classification looks only at what ran in subshells
-        in_guard = not any(is_world(t) for t in sub) and not (c in ("stages", "pl") and bc["st"] == "none")
+        in_guard = not any(is_world(t) for t in sub)
         if same:
             if changes:
                 cl = classify_world(changes, sub, c)
